@@ -251,7 +251,8 @@ def expected(C, model):
         exp["data"][e] = [d, d_uri, (d if routed else {})]
         exp["attr"][e] = ([d.get("a"), d.get("b"), d.get("zz")] if routed else [None, None, None]) if typed else None
     for s in search_menu(C):
-        typed = [(u.type, u.string) for u in unfold_search(s)]
+        from mc.ref import search as rs
+        typed = rs.denoted_typed(C["ref"], s, [(u.type, u.string) for u in unfold_search(s)])
         sid = Sid(s)
         typed_direct = typed
         if sid and not sid.is_search() and not C["ref"].is_search_text(s) and "?" not in s and s.split("/")[-1] not in C["ref"].alias:
